@@ -10,12 +10,20 @@ pub mod refs;
 mod c04;
 #[cfg(kani)]
 mod c18;
+#[cfg(all(kani, feature = "format"))]
+mod c12;
+#[cfg(all(kani, feature = "power-of-two"))]
+mod c05;
+#[cfg(all(kani, not(feature = "compact")))]
+mod wf;
+#[cfg(all(kani, feature = "format"))]
+mod c13;
 #[cfg(kani)]
 mod c15;
 #[cfg(all(kani, feature = "std"))]
 mod c17;
 #[cfg(kani)]
-mod pf;
+pub(crate) mod pf;
 #[cfg(kani)]
 mod c03;
 #[cfg(kani)]
